@@ -8,15 +8,17 @@
 //                                                    (old/new = unsigned 32-bit patterns, ty in i f c)
 //                     s:<k>                          seekHistory(k)
 //                     t:<d>                          clock += d
-//     ops of 'e2e':   c:<port>:<value>               dispatch "<port>" "<ty>" value into rParam-style ports whose
-//                                                    reply("/undo_change") is recorded (ports: b=c-typed, i, j=i-typed,
-//                                                    x (rParamF) and a0 a1 a2 (rArrayF) f-typed: value = binary32 bits)
+//     ops of 'e2e':   c:<path>:<t><v>                a set message "/<path>" ,<t> v dispatched into a table with one port of every
+//                                                    macro kind of port-sugar.h (e2e_ports below); t/v: i<dec> c<dec> f<binary32 bits,
+//                                                    decimal> S<hex symbol> T F; reply("/undo_change") is recorded
+//                     q:<path>                       the message without arguments
 //                     s:<k>, t:<d>                   as above; undo messages are dispatched back (recording disabled)
 //   output: one field per op, separated by '|':
 //           hist:  r -> "p=<pos> n=<size> h=<addrhex>/<ty>/<old>/<new>;..."   (whole retained history)
 //                  s -> "m=<addrhex>/<ty>/<val>;... p=<pos> n=<size>"         (messages in callback order, EMPTY = empty message)
 //                  t -> "-"
-//           e2e:   as above, each field followed by " a=<b>,<i>,<j>,<x>,<a0>,<a1>,<a2>" (application state; floats as bits)
+//           e2e:   as above, each field followed by " hit=<ports reached by the op's dispatches> a=<every field of the object>"
+//                  (floats as bits; an event whose two payload tags differ shows both)
 #include "hcommon.h"
 #include <ctime>
 #include <functional>
@@ -63,16 +65,30 @@ static std::string show_hist(const rtosc::UndoHistory &h)
     return o.str();
 }
 
-// ---- end-to-end application: the repo's parameter macros ------------------
-struct Object { char b; int i; int j; float x; float a[3];
-                Object() : b(0), i(0), j(0), x(0) { a[0] = a[1] = a[2] = 0; } };
+// ---- end-to-end application: one port of every macro kind of port-sugar.h --
+// (every callback that emits "/undo_change", and the toggle kinds, which do not)
+struct Object {
+    char b; int i; int j; float x; float y; bool t; int o;
+    float a[3]; char n[4]; bool g[2]; int q[3]; char p[4];
+    int r; int r_sets;
+    Object() { memset((void*)this, 0, sizeof(*this)); }
+};
 #define rObject Object
 static rtosc::Ports e2e_ports = {
-    rParam(b, "b"),
+    rParam(b, "b"),                                           // ::c, 0..127
     rParamI(i, "i"),
-    rParamI(j, "j"),
+    rParamI(j, rLinear(-100, 100), "j"),
     rParamF(x, "x"),
+    rParamF(y, rLinear(-1.5, 2.5), "y"),
+    rToggle(t, "t"),
+    rOption(o, rOptions(zero, one, two, three), "o"),
     rArrayF(a, 3, "a"),
+    rArrayI(n, 4, "n"),
+    rArrayT(g, 2, "g"),
+    rArrayOption(q, 3, rOptionsBound(lo, mid, hi), "q"),
+    rParams(p, 4, "p"),                                       // "p#4::i" and the alias "p:"
+    {"r::i:c:S", rProp(parameter) rProp(enumerated) rOptions(ra, rb, rc) rLinear(0, 2) rDoc("r"), NULL,
+        rCOptionCb(obj->r, (obj->r_sets++, obj->r = var))},   // option over getcode / setcode, counting setter
 };
 #undef rObject
 
@@ -99,6 +115,41 @@ struct Rt : public rtosc::RtData {
     void reply(const char *) override {}
     void broadcast(const char *) override {}
 };
+
+// events of any shape (a port may emit what the history does not expect)
+static std::string show_hist_e2e(const rtosc::UndoHistory &h)
+{
+    std::ostringstream o;
+    o << "p=" << h.getPos() << " n=" << h.size() << " h=";
+    for(size_t i = 0; i < h.size(); ++i) {
+        const char *m = h.getHistory(i);
+        const char *ty = rtosc_argument_string(m);
+        if(i) o << ";";
+        if(strcmp(m, "/undo_change") || strlen(ty) != 3 || ty[0] != 's' || !strchr("ifc", ty[1]) || !strchr("ifc", ty[2])) {
+            o << "BADEVENT:" << m << ":" << ty;
+            continue;
+        }
+        const char *a = rtosc_argument(m, 0).s;
+        o << hex(a, strlen(a)) << "/" << ty[1];
+        if(ty[1] != ty[2]) o << ty[2];
+        o << "/" << (uint32_t)rtosc_argument(m, 1).i << "/" << (uint32_t)rtosc_argument(m, 2).i;
+    }
+    return o.str();
+}
+
+static std::string show_obj(const Object &ob)
+{
+    std::ostringstream o;
+    auto fb = [](float f) { uint32_t u; memcpy(&u, &f, 4); return u; };
+    o << (int)ob.b << "," << ob.i << "," << ob.j << "," << fb(ob.x) << "," << fb(ob.y) << "," << (int)ob.t << "," << ob.o;
+    for(int k = 0; k < 3; ++k) o << "," << fb(ob.a[k]);
+    for(int k = 0; k < 4; ++k) o << "," << (int)ob.n[k];
+    for(int k = 0; k < 2; ++k) o << "," << (int)ob.g[k];
+    for(int k = 0; k < 3; ++k) o << "," << ob.q[k];
+    for(int k = 0; k < 4; ++k) o << "," << (int)ob.p[k];
+    o << "," << ob.r << "," << ob.r_sets;
+    return o.str();
+}
 
 static void run_hist(const std::vector<std::string> &ops)
 {
@@ -148,13 +199,14 @@ static void run_e2e(const std::vector<std::string> &ops)
     rtosc::UndoHistory h;
     Rt rt(&obj, &h);
     std::string msgs;
+    int hits = 0;
     h.setCallback([&](const char *m) {
         if(!msgs.empty()) msgs += ";";
         msgs += show_msg(m);
         if(m[0]) {
             rt.enable = false;
-            memset(rt.locbuf, 0, sizeof(rt.locbuf));
-            e2e_ports.dispatch(m + 1, rt);
+            e2e_ports.dispatch(m, rt, true);
+            hits += rt.matches;
             rt.enable = true;
         }
     });
@@ -164,21 +216,30 @@ static void run_e2e(const std::vector<std::string> &ops)
         auto f = split(op, ':');
         if(!first) o << "|";
         first = false;
-        if(f[0] == "c" && f.size() == 3) {
-            char buf[64];
-            if(f[1] == "x" || f[1][0] == 'a') {
-                // f-typed ports (rParamF, rArrayF): the value is a binary32 bit pattern
-                uint32_t u = (uint32_t)strtoul(f[2].c_str(), 0, 10);
-                float v; memcpy(&v, &u, 4);
-                rtosc_message(buf, sizeof(buf), f[1].c_str(), "f", v);
-            } else {
-                const char *ty = f[1] == "b" ? "c" : "i";
-                rtosc_message(buf, sizeof(buf), f[1].c_str(), ty, atoi(f[2].c_str()));
+        hits = 0;
+        if((f[0] == "c" && f.size() == 3 && !f[2].empty()) || (f[0] == "q" && f.size() == 2)) {
+            char buf[256];
+            std::string addr = "/" + f[1];
+            size_t len = 0;
+            if(f[0] == "q") len = rtosc_message(buf, sizeof(buf), addr.c_str(), "");
+            else {
+                const char *v = f[2].c_str() + 1;
+                switch(f[2][0]) {
+                    case 'i': len = rtosc_message(buf, sizeof(buf), addr.c_str(), "i", atoi(v)); break;
+                    case 'c': len = rtosc_message(buf, sizeof(buf), addr.c_str(), "c", atoi(v)); break;
+                    case 'f': { uint32_t u = (uint32_t)strtoul(v, 0, 10); float x; memcpy(&x, &u, 4);
+                                len = rtosc_message(buf, sizeof(buf), addr.c_str(), "f", x); break; }
+                    case 'S': { auto b = unhex(v); std::string sy(b.begin(), b.end());
+                                len = rtosc_message(buf, sizeof(buf), addr.c_str(), "S", sy.c_str()); break; }
+                    case 'T': len = rtosc_message(buf, sizeof(buf), addr.c_str(), "T"); break;
+                    case 'F': len = rtosc_message(buf, sizeof(buf), addr.c_str(), "F"); break;
+                }
             }
-            memset(rt.locbuf, 0, sizeof(rt.locbuf));
-            rt.locbuf[0] = '/';
-            e2e_ports.dispatch(buf, rt);
-            o << show_hist(h);
+            if(!len) { o << "BADOP"; continue; }
+            ExactBuf eb(std::vector<uint8_t>(buf, buf + len));
+            e2e_ports.dispatch((const char*)eb.p, rt, true);
+            hits = rt.matches;
+            o << show_hist_e2e(h);
         } else if(f[0] == "s" && f.size() == 2) {
             msgs.clear();
             h.seekHistory(atoi(f[1].c_str()));
@@ -187,9 +248,7 @@ static void run_e2e(const std::vector<std::string> &ops)
             g_clock += atol(f[1].c_str());
             o << "-";
         } else { o << "BADOP"; continue; }
-        o << " a=" << (int)obj.b << "," << obj.i << "," << obj.j;
-        { uint32_t u[4]; memcpy(&u[0], &obj.x, 4); memcpy(&u[1], obj.a, 12);
-          o << "," << u[0] << "," << u[1] << "," << u[2] << "," << u[3]; }
+        o << " hit=" << hits << " a=" << show_obj(obj);
     }
     puts(o.str().c_str());
 }
